@@ -546,6 +546,7 @@ InvRecord World::RunInvocation(const InvPlan& plan) {
     if (kv.second->kind == Inode::kFile) r.fs_before[kv.first] = std::make_pair(FsHash(kv.second->data), kv.second->mtime);
 
   ComputeExpectedRun(plan);
+  if (getenv("SIM_ANNOUNCE")) { std::string a2 = "[" + label + "]"; for (auto& x : a) a2 += " " + x; fprintf(stderr, "INVOKE %s\n", a2.c_str()); }
   cur = &r;
   epoch = 0;
   tokens_held = 0;
